@@ -23,7 +23,7 @@ use zksync_consensus_network::verif::wire::{self, WireValue, W};
 use zksync_consensus_roles::{node, proto::validator as vproto, validator, validator::v2};
 use zksync_protobuf::{
     build::prost_reflect::{
-        prost_types, DescriptorPool, FieldDescriptor, Kind, MessageDescriptor, Syntax,
+        prost_types, DescriptorPool, DynamicMessage, FieldDescriptor, Kind, MessageDescriptor, Syntax,
     },
     canonical_raw, ProtoFmt,
 };
@@ -530,6 +530,29 @@ fn parse_msg(b: &[u8], desc: &MessageDescriptor) -> Result<GMsg, String> {
         }
     }
     Ok(m)
+}
+
+/// Does the message (at any nesting level) carry more than one member of some `oneof`? Such a buffer is accepted by
+/// protobuf parsers ("last member seen wins") but is not the serialisation of any message value; `canonical_raw`
+/// re-orders the members by field number, so the member a parser sees afterwards may be a different one.
+fn several_oneof_members(m: &GMsg, desc: &MessageDescriptor) -> bool {
+    let mut seen: BTreeMap<String, BTreeSet<u32>> = BTreeMap::new();
+    for o in &m.occ {
+        let Some(f) = desc.get_field(o.num) else { continue };
+        if let Some(oo) = f.containing_oneof() {
+            seen.entry(oo.name().to_string()).or_default().insert(o.num);
+        }
+        if let Kind::Message(sub) = f.kind() {
+            for v in &o.vals {
+                if let GV::M(g) = v {
+                    if several_oneof_members(g, &sub) {
+                        return true;
+                    }
+                }
+            }
+        }
+    }
+    seen.values().any(|s| s.len() > 1)
 }
 
 fn put_scalar(out: &mut Vec<u8>, v: &GV, pad: &mut dyn FnMut(usize) -> usize) {
@@ -1713,6 +1736,70 @@ fn rt_variants(rng: &mut StdRng) -> Vec<v2::ReplicaTimeout> {
 // the property
 // ---------------------------------------------------------------------------------------------
 
+
+// ---------------------------------------------------------------------------------------------
+// the build-time restriction (protobuf_build/src/canonical.rs), run through the public `Config::generate`
+// ---------------------------------------------------------------------------------------------
+
+/// (case name, text of a `.proto` file of package `zksync.c09check`)
+const BUILD_CASES: &[(&str, &str)] = &[
+    ("good", "syntax = \"proto3\";\npackage zksync.c09check;\nenum E { A = 0; B = 1; }\nmessage Sub { optional bytes x = 1; }\nmessage M { optional uint64 a = 1; repeated uint32 r = 2; repeated E e = 3; Sub s = 4; repeated Sub rs = 5; oneof t { bool u = 6; Sub v = 7; } optional string name = 8; }\n"),
+    ("empty", "syntax = \"proto3\";\npackage zksync.c09check;\nmessage M {}\n"),
+    ("map", "syntax = \"proto3\";\npackage zksync.c09check;\nmessage M { optional uint64 a = 1; map<uint32, bytes> m = 2; }\n"),
+    ("implicit-scalar", "syntax = \"proto3\";\npackage zksync.c09check;\nmessage M { uint64 a = 1; }\n"),
+    ("implicit-bytes", "syntax = \"proto3\";\npackage zksync.c09check;\nmessage M { optional uint64 a = 1; bytes b = 2; }\n"),
+    ("implicit-enum", "syntax = \"proto3\";\npackage zksync.c09check;\nenum E { A = 0; }\nmessage M { E e = 1; }\n"),
+    ("implicit-nested", "syntax = \"proto3\";\npackage zksync.c09check;\nmessage M { optional Inner i = 1; message Inner { string s = 1; } }\n"),
+    ("implicit-in-referenced", "syntax = \"proto3\";\npackage zksync.c09check;\nmessage Bad { bool flag = 3; }\nmessage M { repeated Bad bs = 1; }\n"),
+    ("map-in-nested", "syntax = \"proto3\";\npackage zksync.c09check;\nmessage M { message Inner { map<string, uint64> m = 1; } optional Inner i = 1; }\n"),
+    ("proto2", "syntax = \"proto2\";\npackage zksync.c09check;\nmessage M { optional uint64 a = 1; }\n"),
+    ("message-without-optional", "syntax = \"proto3\";\npackage zksync.c09check;\nmessage S {}\nmessage M { S s = 1; }\n"),
+    ("oneof-scalars", "syntax = \"proto3\";\npackage zksync.c09check;\nmessage M { oneof t { uint64 a = 1; bytes b = 2; fixed32 c = 3; } }\n"),
+    ("repeated-only", "syntax = \"proto3\";\npackage zksync.c09check;\nmessage M { repeated fixed64 a = 1; repeated bytes b = 2; repeated double d = 3; }\n"),
+];
+
+/// Descriptors of a stand-alone `.proto` text (compiled with protox, which does not apply the restriction).
+fn compile_standalone(text: &str) -> Result<prost_types::FileDescriptorSet, String> {
+    let vpath = "zksync/c09check/case.proto";
+    let file = protox::file::File::from_source(vpath, text).map_err(|e| format!("{e:?}"))?;
+    let mut set = prost_types::FileDescriptorSet::default();
+    set.file.push(file.into());
+    let mut compiler = protox::Compiler::with_file_resolver(protox::file::DescriptorSetFileResolver::new(set));
+    compiler.open_files([vpath]).map_err(|e| format!("{e:?}"))?;
+    Ok(compiler.file_descriptor_set())
+}
+
+/// The restriction as the doc comment of proto_fmt.rs / canonical.rs states it, evaluated on the descriptors:
+/// proto3, no map field, every field repeated or with explicit presence — for every message of the file.
+fn restriction_holds(pool: &SynPool) -> bool {
+    pool.msgs.iter().all(|m| is_proto3(m) && m.fields().all(|f| !f.is_map() && (f.is_list() || f.supports_presence())))
+}
+
+/// `zksync_protobuf_build::Config::generate()` on a directory holding just this file (the only public way to
+/// reach `canonical::check`). `Ok` = the build script would succeed.
+fn run_build_check(dir: &std::path::Path, text: &str) -> Result<(), String> {
+    let _ = std::fs::remove_dir_all(dir);
+    std::fs::create_dir_all(dir.join("proto")).map_err(|e| e.to_string())?;
+    std::fs::create_dir_all(dir.join("out")).map_err(|e| e.to_string())?;
+    std::fs::write(dir.join("proto").join("case.proto"), text).map_err(|e| e.to_string())?;
+    std::env::set_var("CARGO_MANIFEST_DIR", dir);
+    std::env::set_var("OUT_DIR", dir.join("out"));
+    let cfg = zksync_protobuf_build::Config {
+        input_root: "proto".into(),
+        proto_root: "zksync/c09check".into(),
+        dependencies: vec![],
+        protobuf_crate: "::zksync_protobuf".parse().map_err(|e| format!("{e:?}"))?,
+        is_public: false,
+    };
+    cfg.generate().map_err(|e| format!("{e:#}"))
+}
+
+fn scratch_dir() -> std::path::PathBuf {
+    let args: Vec<String> = std::env::args().collect();
+    let base = args.iter().position(|a| a == "--out").and_then(|i| args.get(i + 1)).cloned().unwrap_or_else(|| "/verif/.work/C09-scratch".to_string());
+    std::path::PathBuf::from(base).join("buildcheck")
+}
+
 pub struct C09 {
     pool: DescriptorPool,
     names: Vec<String>,
@@ -2004,7 +2091,7 @@ impl C09 {
             ops.push(json!({"op": "duration", "secs": s, "nanos": n}));
             ops.push(json!({"op": "timestamp", "secs": s, "nanos": n}));
         }
-        // duration_read: anything whose carry does not overflow i64
+        // duration_read: any (seconds, nanos) pair
         let mut reads: Vec<(i64, i32)> = vec![
             (0, 0),
             (0, i32::MAX),
@@ -2031,11 +2118,9 @@ impl C09 {
             let n: i32 = rng.gen::<i32>() >> rng.gen_range(0..32);
             reads.push((s, n));
         }
+        // carry overflows included: the repaired `duration_from_parts` answers them with an error, not a panic
+        reads.extend([(i64::MAX, 1_000_000_000), (i64::MAX, i32::MAX), (i64::MIN, -1_000_000_000), (i64::MIN, i32::MIN), (i64::MAX - 1, 2_000_000_000)]);
         for (s, n) in reads {
-            let carry = (n / 1_000_000_000) as i64;
-            if s.checked_add(carry).is_none() {
-                continue; // the overflow case belongs to C10
-            }
             ops.push(json!({"op": "duration_read", "secs": s, "nanos": n}));
         }
         // sockaddr
@@ -2226,7 +2311,7 @@ impl C09 {
                 None => return json!({"unknown_schema": true}),
             }
         };
-        let input = json!({"op": op});
+        let input = op.clone();
         let expect = op.get("expect").map(unhx);
         let obs = match catch(|| canonical_raw(&bytes, &desc)) {
             Err(site) => {
@@ -2248,6 +2333,23 @@ impl C09 {
                     Ok(Err(e)) => out.oracle_fail("canonical_raw/idempotence", &format!("canonical_raw rejects its own output {}: {e:#}", hx(&c)), input.clone()),
                     Err(site) => out.oracle_fail(&site, "canonical_raw panicked on its own output", input.clone()),
                 }
+                // meaning preserved, as judged by an independent protobuf implementation (prost-reflect): if the
+                // input is a message prost accepts, the canonical bytes are one too, and it is the same message
+                let comparable = matches!(parse_msg(&bytes, &desc), Ok(g) if !several_oneof_members(&g, &desc));
+                if !comparable {
+                    out.count("meaning=skipped");
+                } else if let Ok(Ok(m1)) = catch(|| DynamicMessage::decode(desc.clone(), &bytes[..])) {
+                    out.count("meaning=compared");
+                    match catch(|| DynamicMessage::decode(desc.clone(), &c[..])) {
+                        Ok(Ok(m2)) => {
+                            if m1.encode_to_vec() != m2.encode_to_vec() {
+                                out.oracle_fail("canonical_raw/meaning", "prost decodes the canonical bytes to a different message than the input", input.clone());
+                            }
+                        }
+                        Ok(Err(e)) => out.oracle_fail("canonical_raw/meaning", &format!("prost accepts the input but rejects the canonical bytes {}: {e}", hx(&c)), input.clone()),
+                        Err(site) => out.oracle_fail(&site, "DynamicMessage::decode panicked", input.clone()),
+                    }
+                }
                 json!({"ok": true, "out": hx(&c)})
             }
             Ok(Err(e)) => {
@@ -2262,18 +2364,24 @@ impl C09 {
         if let (Some(key), Some(seed)) = (op["ty"].as_str(), op["seed"].as_u64()) {
             let key = key.to_string();
             out.count(&format!("ty={key}"));
-            self.value_monitors(&key, seed, &fam, &bytes, expect.as_deref(), out);
+            self.value_monitors(op, &key, seed, &fam, &bytes, expect.as_deref(), out);
         }
         obs
     }
 
-    fn value_monitors(&mut self, key: &str, seed: u64, fam: &str, bytes: &[u8], expect: Option<&[u8]>, out: &mut Out) {
+    fn value_monitors(&mut self, op: &Value, key: &str, seed: u64, fam: &str, bytes: &[u8], expect: Option<&[u8]>, out: &mut Out) {
         let Some(x) = self.typed(key, seed) else {
             out.oracle_fail("harness/unknown-type", "type key not registered", json!({"ty": key}));
             return;
         };
         let dbg = || trunc(x.debug(), 600);
-        let input = |extra: Value| json!({"ty": key, "seed": seed, "fam": fam, "value": dbg(), "bytes": hx(bytes), "extra": extra});
+        // the op line itself (replayable) + diagnostics under keys that `exec` ignores
+        let input = |extra: Value| {
+            let mut j = op.clone();
+            j["_value"] = json!(dbg());
+            j["_extra"] = extra;
+            j
+        };
         if fam != "prost" {
             // any valid serialisation decodes to the same value
             match catch(|| x.decode_eq(bytes)) {
@@ -2327,7 +2435,7 @@ impl C09 {
             .iter()
             .map(|e| (rt_of(&e["msg"]), v2::Signers(bits_of_str(e["signers"].as_str().expect("signers")))))
             .collect();
-        let input = json!({"op": op});
+        let input = op.clone();
         let q = tqc_build(&view, &entries, &sig);
         let enc = match catch(|| zksync_protobuf::encode(&q)) {
             Ok(e) => e,
@@ -2341,6 +2449,21 @@ impl C09 {
             Ok(Ok(_)) => out.oracle_fail("TimeoutQC/decode-encode", "decode(encode(x)) != x", input.clone()),
             Ok(Err(e)) => out.oracle_fail("TimeoutQC/decode-encode", &format!("decode(encode(x)) fails: {e:#}"), input.clone()),
             Err(site) => out.oracle_fail(&site, "decode(TimeoutQC) panicked", input.clone()),
+        }
+        // the mechanism itself: on the wire the votes appear in strictly ascending key order (derived `Ord`)
+        match vproto::TimeoutQcv2::decode(&enc[..]) {
+            Ok(p) => {
+                let keys: Result<Vec<v2::ReplicaTimeout>, _> = p.msgs.iter().map(ProtoFmt::read).collect();
+                match keys {
+                    Ok(keys) => {
+                        if !keys.windows(2).all(|w| w[0] < w[1]) || p.msgs.len() != p.signers.len() || keys.len() != q.map.len() {
+                            out.oracle_fail("TimeoutQC/wire-order", "msgs on the wire are not the map's keys in strictly ascending order", input.clone());
+                        }
+                    }
+                    Err(e) => out.oracle_fail("TimeoutQC/wire-order", &format!("msgs do not read back: {e:#}"), input.clone()),
+                }
+            }
+            Err(e) => out.oracle_fail("TimeoutQC/wire-order", &format!("encode(x) is not a TimeoutQCV2: {e}"), input.clone()),
         }
         let distinct = (0..entries.len()).all(|i| (0..i).all(|j| entries[i].0 != entries[j].0));
         out.count(if distinct { "tqc=distinct" } else { "tqc=dup-key" });
@@ -2392,7 +2515,7 @@ impl C09 {
                 m => panic!("mode {m:?}"),
             },
         };
-        let input = json!({"op": op});
+        let input = op.clone();
         let run = |vs: Vec<validator::ValidatorInfo>| -> Result<Option<Vec<u8>>, String> {
             catch(|| validator::Schedule::new(vs, sel.clone()).ok().map(|s| zksync_protobuf::encode(&s)))
         };
@@ -2440,7 +2563,7 @@ impl C09 {
         };
         let (a, c) = (caps("accept"), caps("connect"));
         out.count(if a.len().max(c.len()) >= 2 { "muxhs>=2" } else { "muxhs<2" });
-        let input = json!({"op": op});
+        let input = op.clone();
         let h1 = wire::mux_handshake(a.clone(), c.clone(), false);
         let enc = match catch(|| h1.encode()) {
             Ok(e) => e,
@@ -2473,7 +2596,7 @@ impl C09 {
 
     fn exec_std(&mut self, kind: &str, op: &Value, out: &mut Out) -> Value {
         use zksync_protobuf::proto::std as pstd;
-        let input = json!({"op": op});
+        let input = op.clone();
         match kind {
             "bitvec" => {
                 let s = op["bits"].as_str().expect("bits");
@@ -2528,7 +2651,11 @@ impl C09 {
                 match r {
                     Ok((ps, pn, enc, rt)) => {
                         if !rt && s > i64::MIN {
-                            out.oracle_fail(&format!("{kind}/decode-encode"), "decode(encode(x)) != x", input);
+                            out.oracle_fail(&format!("{kind}/decode-encode"), "decode(encode(x)) != x", input.clone());
+                        }
+                        // std.proto: "Non-negative fractions of a second ... Must be from 0 to 999,999,999 inclusive"
+                        if !matches!(pn, Some(n) if (0..1_000_000_000).contains(&n)) {
+                            out.oracle_fail(&format!("{kind}/nanos-range"), "the nanos field on the wire is outside 0..=999_999_999", input);
                         }
                         json!({"enc": hx(&enc), "secs": ps, "nanos": pn, "rt": rt})
                     }
@@ -2589,6 +2716,52 @@ impl C09 {
     }
 }
 
+impl C09 {
+    fn gen_buildcheck(&self, ops: &mut Vec<Value>) {
+        for (name, text) in BUILD_CASES {
+            let set = compile_standalone(text).unwrap_or_else(|e| panic!("build case {name}: {e}"));
+            let pool = SynPool::new("buildcheck", set);
+            ops.push(json!({"op": "buildcheck", "case": name, "proto": text, "table": pool.table}));
+        }
+    }
+
+    /// `canonical::check` (through `Config::generate`) on the op's `.proto` text; the model evaluates
+    /// `supportsCanonical` on the op's table (= the descriptors of the same text).
+    fn exec_buildcheck(&mut self, op: &Value, out: &mut Out) -> Value {
+        let text = op["proto"].as_str().expect("proto").to_string();
+        let input = op.clone();
+        let set = match compile_standalone(&text) {
+            Ok(s) => s,
+            Err(e) => return json!({"bad_op": true, "_err": e}),
+        };
+        let pool = SynPool::new("buildcheck", set);
+        if pool.table != op["table"] {
+            out.oracle_fail("harness/buildcheck-table", "the op's table is not the descriptor table of its proto text", input.clone());
+        }
+        let want = restriction_holds(&pool);
+        match catch(|| run_build_check(&scratch_dir(), &text)) {
+            Ok(r) => {
+                let got = r.is_ok();
+                if got != want {
+                    out.oracle_fail(
+                        "protobuf_build/canonical-check",
+                        &format!("the build-time check {} a schema that {} the canonical-encoding restriction ({})",
+                                 if got { "accepts" } else { "rejects" }, if want { "satisfies" } else { "violates" },
+                                 r.as_ref().err().cloned().unwrap_or_default()),
+                        input,
+                    );
+                }
+                out.count(if got { "buildcheck=accepted" } else { "buildcheck=rejected" });
+                json!({"ok": got, "_err": r.err()})
+            }
+            Err(site) => {
+                out.oracle_fail(&site, "Config::generate panicked", input);
+                json!({"panic": site})
+            }
+        }
+    }
+}
+
 impl Prop for C09 {
     fn gen(&mut self, opts: &Opts) -> Vec<Value> {
         let rng = &mut opts.rng();
@@ -2596,6 +2769,7 @@ impl Prop for C09 {
         for n in &self.names {
             ops.push(json!({"op": "schema", "name": n}));
         }
+        self.gen_buildcheck(&mut ops);
         self.gen_conv(&mut ops, rng, opts.n);
         self.gen_f9(&mut ops, rng);
         self.gen_generic(&mut ops, rng, opts.n);
@@ -2613,6 +2787,7 @@ impl Prop for C09 {
                 Some(m) => schema_obs(&m),
                 None => json!({"known": false}),
             },
+            "buildcheck" => self.exec_buildcheck(op, out),
             "tqc" => self.exec_tqc(op, out),
             "schedule" => self.exec_schedule(op, out),
             "muxhs" => self.exec_muxhs(op, out),
